@@ -1,4 +1,5 @@
 import Driver.CAStoreRepl
+import KrakenModel.Model.OriginBlob
 /- Driver for C01: replays `castore` transcripts on Model.CAStoreMem and evaluates the property's
    predicate on what the implementation returned:
 
@@ -102,4 +103,126 @@ def machine : Machine := { σ := St, name := "castore", init := init, step := st
 
 end C01
 
-def main (args : List String) : IO UInt32 := runMachines [C01.machine] args
+/-! ### the HTTP level: origin/blobserver handlers + uploader + blobrefresh + metainfogen over a real CAStore -/
+namespace C01Origin
+open KrakenModel.OriginBlob C01
+
+structure St where
+  m : OriginBlob.State
+  t : Tables := {}
+  last : Std.HashMap String (List String) := {}
+  pending : Option String := none
+
+def init (toks : List String) : Option St := do
+  let cfg ← cfg? toks
+  let pl ← (kv? toks "pl").bind int?
+  pure { m := { cas := CAStoreMem.init cfg, pl := pl } }
+
+def kind? : String → Option Kind
+  | "transfer" => some .transfer
+  | "cluster" => some .cluster
+  | _ => none
+
+def oresTok : ORes → String
+  | .ok => "ok" | .conflict => "conflict" | .notFound => "notfound" | .fail => "fail"
+
+def probeObs (s : CAStoreMem.State) (n : Name) : List String :=
+  (CAStoreRepl.probeObs s n).take 3 ++ ["mem=-"]
+
+def replay (s : St) (args : List String) : Option (OriginBlob.State × List String × String) :=
+  let H := s.t.H
+  let crc := s.t.crcOf
+  match args with
+  | ["start", k, n, u] => do
+    let k ← kind? k
+    let (m, r) := start crc s.m k n u
+    pure (m, [oresTok r], s!"start.{oresTok r}")
+  | ["patch", k, n, u, off, b] => do
+    let k ← kind? k
+    let off ← nat? off
+    let b ← bytes? b
+    let (m, r) := patch crc s.m k n u off b
+    pure (m, [oresTok r], s!"patch.{oresTok r}")
+  | ["commit", k, n, u, have_] => do
+    let k ← kind? k
+    let mine := match KV.get s.m.cas.uploads u with | some b => bytesTok b | none => "-"
+    if mine ≠ have_ then pure (s.m, ["upload-content", mine], "commit.content-diff") else
+    let (m, r) := commit H crc s.m k n u
+    pure (m, [oresTok r], s!"commit.{oresTok r}")
+  | ["fetch", n, size, atts] => do
+    let size ← if size = "-" then some none else (nat? size).map some
+    let atts ← atts? atts
+    let (m, r) := fetch H crc s.m n size atts
+    let c := s.m.cas
+    -- number of backend Download invocations the write-through makes
+    let calls : Nat :=
+      if (readable c n).isSome ∨ size.isNone ∨ n ∈ s.m.failed then 0
+      else
+        let sz := size.getD 0
+        let viaMem := c.cfg.memEnabled && (MemCache.tryReserve c.mem sz).2
+        if viaMem && (addToMem H crc (reserved c sz) n atts.head? sz s.m.pl).isNone then 2 else 1
+    let path := if calls = 0 then "nodownload" else if calls = 2 then "mem-fallback" else if inMem m.cas n then "mem" else "disk"
+    pure (m, [oresTok r, s!"calls={calls}"], s!"fetch.{path}.{oresTok r}")
+  | ["overwritemeta", n, pl] => do
+    let pl ← int? pl
+    let (m, r) := overwriteMeta crc s.m n pl
+    pure (m, [oresTok r], s!"overwritemeta.{oresTok r}")
+  | ["probe", n] =>
+    let br := (if inMem s.m.cas n then "probe.mem" else if (readable s.m.cas n).isSome then "probe.disk" else "probe.absent") ++
+      (if (metainfo s.m.cas n).isSome then "+mi" else "")
+    some (s.m, probeObs s.m.cas n, br)
+  | _ => none
+
+/-- writes none of whose content hashes to the name (`none`: not such a write) -/
+def pureMismatch (s : St) (args : List String) : Option String :=
+  match args with
+  | ["commit", _, n, _, have_] =>
+    if have_ = "-" then none else
+    match s.t.sha.get? have_ with
+    | some h => if h ≠ n then some n else none
+    | none => none
+  | ["fetch", n, size, atts] =>
+    -- only when nothing was visible under the name before (then `ok` can only come from the refresh)
+    let absent : Bool := match s.last.get? n with | some (r :: _) => r == "r=notexist" | _ => false
+    let live := (list? atts).filter (fun a => !a.endsWith "!")
+    if absent && size != "-" && live.all (fun a => match s.t.sha.get? a with | some h => h ≠ n | none => false) then some n else none
+  | _ => none
+
+def step (s : St) (kind : String) (args impl : List String) : Option (St × StepOut) := do
+  if kind = "tbl" then
+    let (core, obs, branch) ← CAStoreRepl.step { m := s.m.cas, t := s.t } kind args
+    return ({ s with t := core.t }, { obs, branch })
+  if kind ≠ "op" then none
+  let (m, obs, branch) ← replay s args
+  let muted := s.m.cas.cfg.skipVerify
+  let isProbe := args.head? = some "probe"
+  let mut pf : List String := []
+  let mut last := s.last
+  let mut pending := if isProbe then s.pending else none
+  if isProbe then
+    let n := args.getD 1 ""
+    if !muted then
+      pf := pf ++ probeMon s.t n impl
+      if s.pending = some n then
+        match s.last.get? n with
+        | some before =>
+          if before ≠ impl then
+            pf := pf ++ [s!"side=impl key=mismatch-write-visible a write under {n} with no matching content changed what is visible: before {sp before} after {sp impl}"]
+        | none => pure ()
+        pending := none
+    last := last.insert n impl
+  else
+    match pureMismatch s args with
+    | some n =>
+      if !muted then
+        if impl.head? = some "ok" then
+          pf := pf ++ [s!"side=impl key=mismatch-write-accepted {sp args} returned ok although no content hashes to {n}"]
+        pending := some n
+    | none => pure ()
+  return ({ s with m, last, pending }, { obs, branch, propfails := pf })
+
+def machine : Machine := { σ := St, name := "origin", init := init, step := step }
+
+end C01Origin
+
+def main (args : List String) : IO UInt32 := runMachines [C01.machine, C01Origin.machine] args
